@@ -1080,6 +1080,7 @@ func runC11(c *core.Ctx) core.Meta {
 	st1120 := c.Rule("R11.20", "a flush or copy request the command processor refuses (return false: the caches are still acknowledging an earlier flush, the request stays at the head of the port and is retried) does not change the middleware's state: in every bool-returning handler of cpMiddleware no store to a field of the middleware is followed by a return false. A held flush request that replaces currFlushRequest takes the response of the flush that is running: the first copy never completes and the second is answered twice", 1)
 	checkNoStoreBeforeRefusal(c, st1120, "R11.20", NewPkgInfo(c, cpPkg), "cpMiddleware", "the flush that is running is answered under the held request's identity")
 	checkFieldStoredFresh(c, "R11.21", "the staging bytes of a device-to-host copy belong to its command: every store into MemCopyD2HCommand.RawData stores storage allocated by that call - the per-page destination buffers of the DMA requests are windows of it, so a staging buffer kept by the middleware is shared by every copy in flight and each is decoded from whatever was written last", 1, driverPkg, "MemCopyD2HCommand.RawData")
+	checkNotRunningThenDequeued(c, "R11.22")
 	return core.Meta{Level: "other",
 		Explanation: "Structural clauses of host-device copies decided on SSA of amd/driver, amd/timing/cp (CP middleware + DMA engine) and the emulator's storage accessor: the overlap predicate over all 75 weak orderings (order-domain abstract interpretation), completion only on an empty outstanding list / finished collection, the six splitting loops (min(remaining, unit remainder), same step for all cursors, slice and size = chunk), piece addressing through the page found for the address, SEND-DISCIPLINE of DMA/CP/driver send stages, clone FIELDS, flush-before-copy ordering.",
 		NotDecided:  "byte equality of copied data for every offset/length (arithmetic over runtime values); cache flush effectiveness; zero-length copies",
